@@ -470,6 +470,25 @@ impl Prop for C03 {
     fn anchors(&self) -> Vec<&'static str> {
         vec!["init_expr.eval", "parse_comp.module"]
     }
+    fn time_cap(&self, tier: Tier) -> u64 {
+        match tier {
+            Tier::Quick => 60,
+            Tier::Thorough => 900,
+        }
+    }
+    /// thorough tier: ASan + libFuzzer sub-engine (see fuzz/fuzz_targets/parse.rs)
+    fn post(&self, seed: u64, tier: Tier, m: &mut crate::runner::Merged) {
+        if tier != Tier::Thorough {
+            return;
+        }
+        let secs: u64 = std::env::var("VERIF_C03_FUZZ_SECS").ok().and_then(|s| s.parse().ok()).unwrap_or(600);
+        if secs == 0 {
+            m.extra.insert("fuzz_sub_engine".into(), json!("skipped (VERIF_C03_FUZZ_SECS=0)"));
+            return;
+        }
+        let r = fuzz_sub_engine(seed, secs, m);
+        m.extra.insert("fuzz_sub_engine".into(), r);
+    }
     fn run_witness(&self, w: &serde_json::Value) -> Option<CaseOut> {
         if let Some(h) = w["hex"].as_str() {
             let bytes = hex_decode(h)?;
@@ -548,4 +567,145 @@ impl Prop for C03 {
         }
         out
     }
+}
+
+// ------------------------------------------------------------------------------------
+// ASan + libFuzzer sub-engine (thorough tier)
+
+/// child entry point: `harness c03one <file>`: the file is a fuzzer artefact (flag byte + input); prints one line per
+/// violation signature. A stack overflow / abort kills this child, which the parent sees as a signal.
+pub fn child_one(path: &str) {
+    crate::runner::install_panic_hook();
+    let data = std::fs::read(path).unwrap_or_default();
+    if data.is_empty() {
+        return;
+    }
+    let mut out = CaseOut::default();
+    probe(&data[1..], &mut out, "fuzz-artefact", &[]);
+    for v in out.violations {
+        println!("SIG {}", v.sig);
+    }
+}
+
+fn fuzz_sub_engine(seed: u64, secs: u64, m: &mut crate::runner::Merged) -> serde_json::Value {
+    use std::process::{Command, Stdio};
+    let vd = std::env::var("VERIF_DIR").unwrap_or_else(|_| "/verif".into());
+    let work = format!("{}/out/fuzz", vd);
+    let corpus = format!("{}/corpus", work);
+    let arts = format!("{}/artifacts/", work);
+    let _ = std::fs::remove_dir_all(&work);
+    let _ = std::fs::create_dir_all(&corpus);
+    let _ = std::fs::create_dir_all(&arts);
+    // seed corpus: generated modules of every profile, generated components, the hand-made hostile inputs
+    let mut n = 0;
+    for k in 0..360u64 {
+        let mut rng = Rng::for_case(seed, "C03-fuzz-corpus", k);
+        let (tagbyte, bytes) = if k % 6 == 5 {
+            (2u8 | (k as u8 & 1), crate::gencomp::generate(&mut rng, 3).bytes)
+        } else {
+            let prof = gen::PROFILES[(k as usize) % gen::PROFILES.len()];
+            let mut cfg = GenCfg::default_for(&mut rng);
+            cfg.max_funcs = cfg.max_funcs.min(3);
+            cfg.max_stmts = cfg.max_stmts.min(8);
+            (k as u8 & 1, gen::generate(&mut rng, prof, &cfg).bytes)
+        };
+        let mut d = vec![tagbyte];
+        d.extend(bytes);
+        if d.len() < 6000 && std::fs::write(format!("{}/seed-{:04}", corpus, k), d).is_ok() {
+            n += 1;
+        }
+    }
+    for (i, (_, b)) in specials().iter().enumerate() {
+        for t in 0..4u8 {
+            let mut d = vec![t];
+            d.extend(b.iter().take(6000));
+            let _ = std::fs::write(format!("{}/special-{:03}-{}", corpus, i, t), d);
+            n += 1;
+        }
+    }
+    let log_path = format!("{}/fuzz.log", work);
+    let log = match std::fs::File::create(&log_path) {
+        Ok(f) => f,
+        Err(e) => return json!({"status": format!("inconclusive: cannot create log: {}", e)}),
+    };
+    let log2 = log.try_clone().unwrap();
+    let t0 = std::time::Instant::now();
+    let st = Command::new("cargo")
+        .args(["+nightly", "fuzz", "run", "--fuzz-dir", &format!("{}/fuzz", vd), "parse", &corpus, "--"])
+        .args([
+            &format!("-seed={}", seed),
+            &format!("-max_total_time={}", secs),
+            "-timeout=10",
+            "-fork=16",
+            "-ignore_crashes=1",
+            "-ignore_timeouts=1",
+            "-ignore_ooms=1",
+            "-rss_limit_mb=3000",
+            "-max_len=8192",
+            &format!("-artifact_prefix={}", arts),
+        ])
+        .env("CARGO_NET_OFFLINE", "true")
+        .env_remove("RUSTFLAGS")
+        .stdin(Stdio::null())
+        .stdout(Stdio::from(log))
+        .stderr(Stdio::from(log2))
+        .status();
+    let text = std::fs::read_to_string(&log_path).unwrap_or_default();
+    let built = text.contains("INFO: Running with entropic") || text.contains("INFO: -fork=") || text.contains("cov:");
+    if !built {
+        let tail: String = text.lines().rev().take(6).collect::<Vec<_>>().into_iter().rev().collect::<Vec<_>>().join(" | ");
+        return json!({"status": format!("inconclusive: fuzz target did not start ({:?}): {}", st.map(|s| s.code()), tail.chars().take(400).collect::<String>())});
+    }
+    // last progress line of fork mode: "#123456: cov: 1234 ft: 5678 corp: 910 exec/s: 1112 oom/timeout/crash: 0/0/3 time: 60s job: 9 dft_time: 0"
+    let mut stats = json!({});
+    for l in text.lines().rev() {
+        if l.starts_with('#') && l.contains("cov:") {
+            let grab = |key: &str| l.split(key).nth(1).and_then(|r| r.trim().split(' ').next()).map(|s| s.to_string());
+            stats = json!({"executions": l[1..].split(':').next().and_then(|x| x.trim().parse::<u64>().ok()), "cov_edges": grab("cov:"), "features": grab("ft:"),
+                           "corpus": grab("corp:"), "oom/timeout/crash": grab("oom/timeout/crash:"), "last_line": l});
+            break;
+        }
+    }
+    // classify artefacts through the stable harness, one child per artefact
+    let exe = std::env::current_exe().expect("current_exe");
+    let mut crashes = 0u64;
+    let mut inconclusive = 0u64;
+    let mut not_reproduced = 0u64;
+    let mut files: Vec<String> = std::fs::read_dir(&arts).map(|d| d.filter_map(|e| e.ok()).map(|e| e.path().display().to_string()).collect()).unwrap_or_default();
+    files.sort();
+    for f in files.iter().take(400) {
+        let base = f.rsplit('/').next().unwrap_or("");
+        if base.starts_with("oom-") || base.starts_with("timeout-") || base.starts_with("slow-unit-") {
+            inconclusive += 1;
+            continue;
+        }
+        if !base.starts_with("crash-") && !base.starts_with("leak-") {
+            continue;
+        }
+        crashes += 1;
+        let o = Command::new(&exe).arg("c03one").arg(f).stdin(Stdio::null()).stderr(Stdio::null()).output();
+        let hex = std::fs::read(f).map(|b| hex_head(&b[1.min(b.len())..])).unwrap_or_default();
+        match o {
+            Ok(o) if o.status.success() => {
+                let sigs: Vec<String> = String::from_utf8_lossy(&o.stdout).lines().filter_map(|l| l.strip_prefix("SIG ").map(|s| s.to_string())).collect();
+                if sigs.is_empty() {
+                    // the fuzz build (ASan, debug assertions) crashed, the stable build does not: keep the artefact, report as its own signature
+                    not_reproduced += 1;
+                    m.violations.push((0, "fuzz-build-only-crash (see artefact)".into(), json!({"artefact": f, "hex": hex, "note": "sanitizer / fuzz-build crash that the stable harness does not reproduce; read out/fuzz/fuzz.log"})));
+                }
+                for s in sigs {
+                    m.violations.push((0, s, json!({"artefact": f, "hex": hex, "found_by": "libFuzzer+ASan"})));
+                }
+            }
+            Ok(o) => {
+                use std::os::unix::process::ExitStatusExt;
+                m.violations.push((0, format!("abort:signal:{}", o.status.signal().unwrap_or(0)), json!({"artefact": f, "hex": hex, "found_by": "libFuzzer+ASan"})));
+            }
+            Err(_) => inconclusive += 1,
+        }
+    }
+    m.evaluations += stats["executions"].as_u64().unwrap_or(0);
+    json!({"status": "ran", "seconds": t0.elapsed().as_secs(), "seed_corpus": n, "stats": stats, "crash_artefacts": crashes, "replayed_in_stable_harness": crashes,
+           "oom_or_timeout_artefacts(inconclusive)": inconclusive, "fuzz_build_only": not_reproduced,
+           "sanitizer": "AddressSanitizer (cargo fuzz default), debug assertions on"})
 }
